@@ -170,7 +170,7 @@ func c17Gate(c *core.Ctx) {
 	c.ExhaustiveDomain("gate: lengths 0..64 x structured classes (zeros, 0xFF, length field = len, len±1, len+2^k, len^2^k, all 256 type bytes)")
 	c.CellN("gate:structured", int64(n))
 	// random buffers
-	nr := c.N(100000, 5000000)
+	nr := c.N(100000, 20000000)
 	r := c.Rng(core.StrID("c17rand"), uint64(c.Shard))
 	per := nr / maxInt(1, c.NShards)
 	for i := 0; i < per; i++ {
@@ -203,7 +203,7 @@ func c17Gate(c *core.Ctx) {
 		c.Case(core.Hash64(b), l >= 13)
 	}
 	// truncations / extensions of well-formed events
-	nh := c.N(10, 50)
+	nh := c.N(10, 300)
 	for hidx := 0; hidx < nh; hidx++ {
 		if !c.Mine(hidx) {
 			continue
@@ -276,7 +276,7 @@ func c17Payload(kind string, plan []sim.PlanPkt, at int, r *core.Rng) []byte {
 }
 
 func c17Stream(c *core.Ctx) {
-	nh := c.N(20, 120)
+	nh := c.N(20, 600)
 	n := 0
 	for hidx := 0; hidx < nh; hidx++ {
 		h, tables := stopHistory(c, 2000+hidx)
